@@ -1,11 +1,21 @@
-"""Sanitizer legs (thorough tier of C08 and C18): the same kind of op stream, replayed through halosrv under
-valgrind memcheck. The only `unsafe` reachable from the repository is in the dependency bigint-4.4.3
-(mem::uninitialized + ptr::write in U256 add/sub/mul, from_utf8_unchecked in Display); memcheck's definedness
-tracking checks that every limb is written before it is read on the executed paths, plus invalid reads/writes.
+"""Sanitizer legs (thorough tier of C08 and C18): differential replay of recorded request streams through an
+instrumented halosrv.
 
-A memcheck error is a VIOLATION (silently-wrong arithmetic / text is what C08 / C18 exclude); a differing result
-between the native and the instrumented run likewise. A leg that cannot run (tool missing, watchdog) is recorded
-as skipped in the evidence and never becomes a verdict."""
+The only `unsafe` reachable from the repository is in the dependency bigint-4.4.3 (mem::uninitialized + ptr::write
+in U256 add/sub/mul, from_utf8_unchecked in Display). Two instrumented executions of the SAME adapter sources:
+
+  * valgrind memcheck on the ordinary release binary: definedness tracking (every limb written before it is read),
+    invalid reads/writes;
+  * AddressSanitizer build on the nightly toolchain (/verif/harness-asan, -Zsanitizer=address): out-of-bounds and
+    use-after-free in instrumented code, leaks at exit.
+
+Streams replayed: the property's own function-level op stream (C08 arithmetic / C18 conversions), and the complete
+request logs of a few seeded WORLD histories (so the bigint paths are also reached with the operands real contract
+transactions produce). Oracle: zero sanitizer reports, exit status 0, and byte-identical output to the native run.
+
+A report or a differing output is a VIOLATION (silently-wrong arithmetic / text is what C08 / C18 exclude). A leg that
+cannot run (tool missing, nightly build fails, watchdog) is recorded as skipped in the evidence and never becomes a
+verdict."""
 import json
 import os
 import shutil
@@ -13,12 +23,13 @@ import subprocess
 import tempfile
 import time
 
-from . import gen
-from .core import SRV_BIN, VERIF, sub_rng, to_limbs, D, M256
+from .core import SRV_BIN, VERIF, sub_rng, to_limbs, Acc, Server
 
 N_PROCS = 16
 CALLS_PER_PROC = 30000
-WATCHDOG_S = 900
+WATCHDOG_S = 1200
+ASAN_DIR = os.path.join(VERIF, "harness-asan")
+ASAN_BIN = os.path.join(ASAN_DIR, "target", "x86_64-unknown-linux-gnu", "release", "halosrv")
 
 
 def c08_stream(rng, n):
@@ -45,55 +56,110 @@ def c18_stream(rng, n):
     return out
 
 
+def world_logs(seed, prop, n_worlds, steps):
+    """request lines of n seeded world histories (recorded from a native run, no monitors)"""
+    from . import wrun
+    lines = []
+    srv = Server(log=True)
+    try:
+        for wi in range(n_worlds):
+            w = wrun.run_world(Acc(), srv, (seed, prop, "sanitizer-world", wi), lambda w_, a_: [], None, steps)
+            lines.append(list(srv.log))
+    finally:
+        srv.close()
+    return lines
+
+
+def build_asan():
+    env = dict(os.environ)
+    env["CARGO_NET_OFFLINE"] = "true"
+    env["RUSTFLAGS"] = "-Zsanitizer=address -Cforce-frame-pointers=yes"
+    try:
+        r = subprocess.run(["cargo", "+nightly", "build", "--release", "--offline", "--target", "x86_64-unknown-linux-gnu"],
+                           cwd=ASAN_DIR, env=env, stdout=subprocess.PIPE, stderr=subprocess.STDOUT, text=True, timeout=1500)
+    except (OSError, subprocess.TimeoutExpired):
+        return False
+    return r.returncode == 0 and os.path.exists(ASAN_BIN)
+
+
+def _write_streams(tmp, prop, seed):
+    files = []
+    for i in range(N_PROCS):
+        rng = sub_rng(seed, prop, "sanitizer", i)
+        stream = c08_stream(rng, CALLS_PER_PROC) if prop == "C08" else c18_stream(rng, CALLS_PER_PROC)
+        rq = os.path.join(tmp, "fn%d.jsonl" % i)
+        with open(rq, "w") as f:
+            for j in range(0, len(stream), 200):
+                f.write(json.dumps(stream[j:j + 200], separators=(",", ":")) + "\n")
+        files.append((rq, len(stream), "fn"))
+    for k, lines in enumerate(world_logs(seed, prop, 6, 120)):
+        rq = os.path.join(tmp, "world%d.jsonl" % k)
+        with open(rq, "w") as f:
+            f.write("\n".join(lines) + "\n")
+        files.append((rq, len(lines), "world"))
+    return files
+
+
+def _run_leg(acc, prop, seed, name, files, cmd_prefix, binary, env, report_marker, keep_ext):
+    procs = []
+    for (rq, n, kind) in files:
+        log = rq + "." + name + ".log"
+        out = open(rq + "." + name + ".out", "w")
+        cmd = [c.replace("{log}", log) for c in cmd_prefix] + [binary]
+        p = subprocess.Popen(cmd, stdin=open(rq), stdout=out, stderr=open(log + ".stderr", "w"), env=env)
+        procs.append((rq, n, kind, p, out, log))
+    t0 = time.time()
+    for (rq, n, kind, p, out, log) in procs:
+        try:
+            rc = p.wait(timeout=max(1, WATCHDOG_S - (time.time() - t0)))
+        except subprocess.TimeoutExpired:
+            p.kill()
+            acc.count("%s_skipped_watchdog" % name)
+            continue
+        out.close()
+        native = subprocess.run([SRV_BIN], stdin=open(rq), stdout=subprocess.PIPE, stderr=subprocess.DEVNULL).stdout
+        text = ""
+        for f in (log, log + ".stderr"):
+            if os.path.exists(f):
+                text += open(f, errors="replace").read()
+        acc.count("%s_requests_%s" % (name, kind), n)
+        acc.count("%s_processes" % name)
+        reported = (report_marker in text) or rc in (97, 98)
+        if reported:
+            keep = os.path.join(VERIF, "replays", "%s-%s-%d-%s" % (prop, name, seed, os.path.basename(rq)))
+            os.makedirs(os.path.dirname(keep), exist_ok=True)
+            shutil.copy(rq, keep)
+            with open(keep + keep_ext, "w") as f:
+                f.write(text)
+            acc.violation("%s reported errors while executing the %s %s stream (requests %s, report %s)"
+                          % (name, prop, kind, keep, keep + keep_ext), {"kind": name, "report_head": text[:1500]})
+        elif rc != 0:
+            acc.count("%s_skipped_rc_%d" % (name, rc))
+        elif open(out.name, "rb").read() != native:
+            acc.violation("output under %s differs from the native run on a %s stream" % (name, kind), {"kind": name, "stream": rq})
+        else:
+            acc.count("%s_clean_processes" % name)
+
+
 def memcheck_leg(acc, prop, seed):
-    vg = shutil.which("valgrind")
-    if not vg:
-        acc.count("memcheck_leg_skipped_no_valgrind")
-        return
+    """both sanitizer legs (name kept for the callers)"""
     scratch = os.path.join(VERIF, "scratch")
     os.makedirs(scratch, exist_ok=True)
-    tmp = tempfile.mkdtemp(prefix="memcheck-%s-" % prop, dir=scratch)
+    tmp = tempfile.mkdtemp(prefix="sanitize-%s-" % prop, dir=scratch)
     try:
-        procs = []
-        for i in range(N_PROCS):
-            rng = sub_rng(seed, prop, "memcheck", i)
-            stream = c08_stream(rng, CALLS_PER_PROC) if prop == "C08" else c18_stream(rng, CALLS_PER_PROC)
-            rq = os.path.join(tmp, "req%d.jsonl" % i)
-            with open(rq, "w") as f:
-                for j in range(0, len(stream), 200):
-                    f.write(json.dumps(stream[j:j + 200], separators=(",", ":")) + "\n")
-            native = subprocess.run([SRV_BIN], stdin=open(rq), stdout=subprocess.PIPE, stderr=subprocess.DEVNULL)
-            log = os.path.join(tmp, "vg%d.log" % i)
-            out = open(os.path.join(tmp, "out%d.jsonl" % i), "w")
-            p = subprocess.Popen([vg, "--error-exitcode=97", "--quiet", "--log-file=" + log, SRV_BIN],
-                                 stdin=open(rq), stdout=out, stderr=subprocess.DEVNULL)
-            procs.append((i, p, native.stdout, log, out, len(stream)))
-        t0 = time.time()
-        for i, p, native_out, log, out, n in procs:
-            try:
-                rc = p.wait(timeout=max(1, WATCHDOG_S - (time.time() - t0)))
-            except subprocess.TimeoutExpired:
-                p.kill()
-                acc.count("memcheck_leg_skipped_watchdog")
-                continue
-            out.close()
-            acc.count("memcheck_calls", n)
-            acc.count("memcheck_processes")
-            vg_out = open(out.name, "rb").read()
-            if rc == 97 or (os.path.exists(log) and os.path.getsize(log) > 0 and rc != 0):
-                keep = os.path.join(VERIF, "replays", "%s-memcheck-%d-%d.log" % (prop, seed, i))
-                os.makedirs(os.path.dirname(keep), exist_ok=True)
-                shutil.copy(log, keep)
-                shutil.copy(os.path.join(tmp, "req%d.jsonl" % i), keep + ".requests.jsonl")
-                acc.violation("valgrind memcheck reported errors while executing the %s op stream (log %s)" % (prop, keep),
-                              {"kind": "memcheck", "log": keep, "head": open(log).read()[:1500]})
-            elif rc != 0:
-                acc.count("memcheck_leg_skipped_rc_%d" % rc)
-            elif vg_out != native_out:
-                acc.violation("results under memcheck differ from the native run (nondeterminism / uninitialised data)",
-                              {"kind": "memcheck", "process": i})
-            else:
-                acc.count("memcheck_clean_processes")
-        acc.cls("memcheck", prop, "ran")
+        files = _write_streams(tmp, prop, seed)
+        vg = shutil.which("valgrind")
+        if vg:
+            _run_leg(acc, prop, seed, "memcheck", files, [vg, "--error-exitcode=97", "--quiet", "--log-file={log}"], SRV_BIN,
+                     dict(os.environ), "== ", ".memcheck.log")
+            acc.cls("sanitizer", prop, "memcheck_ran")
+        else:
+            acc.count("memcheck_skipped_no_valgrind")
+        if build_asan():
+            env = dict(os.environ, ASAN_OPTIONS="detect_leaks=1:halt_on_error=1:exitcode=98:abort_on_error=0")
+            _run_leg(acc, prop, seed, "asan", files, [], ASAN_BIN, env, "AddressSanitizer", ".asan.log")
+            acc.cls("sanitizer", prop, "asan_ran")
+        else:
+            acc.count("asan_skipped_build_failed")
     finally:
         shutil.rmtree(tmp, ignore_errors=True)
